@@ -214,6 +214,10 @@ Definition agg (f : afun) (l : list val) : val :=
   | _ => VNull
   end.
 
+(* the functions evaluated over a frame (the others look at the whole sorted partition) *)
+Definition windowed (f : afun) : bool :=
+  match f with FLag _ _ | FLead _ _ | FRank | FRatio => false | _ => true end.
+
 Definition ERR_RATIO0 : string := "2-1-3-1".
 
 (* ---------------------------------------------------------------- the value attached to one datapoint *)
@@ -257,7 +261,9 @@ Definition calc_analytic_row (d : dset) (name : string) (f : afun) (sp : aspec) 
   bind (afun_val d sp (d_rows d) f (fun x => colv d x operand) r)
        (fun v => Ok (fst r, snd (calc_put (d_ms d) (snd r) name v))).
 
+Definition calc_ms (d : dset) (name : string) : list string := if mem_s name (d_ms d) then d_ms d else d_ms d ++ [name].
+
 Definition d_calc_analytic (d : dset) (name : string) (f : afun) (sp : aspec) (operand : string) : res dset :=
   if mem_s name (d_ids d) then Err "1-1-6-13" else
   bind (mapM (calc_analytic_row d name f sp operand) (d_rows d))
-       (fun rows => Ok (mkD (d_ids d) (if mem_s name (d_ms d) then d_ms d else d_ms d ++ [name]) rows)).
+       (fun rows => Ok (mkD (d_ids d) (calc_ms d name) rows)).
